@@ -204,7 +204,7 @@ C11_RULE = ("run twice: against the runtime crate with its default features and 
             "Display output parsed with colours forced off, or on with ANSI sequences stripped; catch_unwind for 'never panics'. Non-trivial = position at "
             "a line start other than 0, at a line end, at len, after a multi-byte character, or empty text; distinct (text, position, file).")
 C12_RULE = ("round trip model -> print(model, layout) -> Grammar::from_str -> lift (public AST -> model, literal items decoded with the repo's own "
-            "char::try_from(&StringItem)) == model; layouts vary whitespace and # comments between all tokens "
+            "char::try_from(&StringItem)) == model; layouts vary whitespace and # comments (also with carriage returns that are not followed by a line feed inside the comment) between all tokens "
             "(also inside @check(...)/@extern(...) and before ';'), quote style, every escape spelling for every character (raw, \\n-style, \\xXX, \\uXXXX, "
             "\\U00XXXXXX, \\u{X..} minimal and zero padded, upper/lower hex), redundant parentheses (then compared modulo groups), directive order, several "
             "@checks before/after @char, lookaheads applied to groups, empty alternatives, literals printed in one escape form throughout, 'mojibake' literals; second relation: two layouts of one model generate byte-identical "
